@@ -36,7 +36,7 @@ type sandbox struct {
 	h          *webdav.Handler
 }
 
-func newSandbox() *sandbox {
+func newSandbox(spelling int) *sandbox {
 	tmp := os.TempDir()
 	if st, err := os.Stat("/dev/shm"); err == nil && st.IsDir() {
 		tmp = "/dev/shm"
@@ -51,10 +51,24 @@ func newSandbox() *sandbox {
 	os.WriteFile(filepath.Join(base, "served", "canary.txt"), []byte("canary"), 0644)
 	os.WriteFile(filepath.Join(base, "served", "sibling", "canary.txt"), []byte("sibling canary"), 0644)
 	os.WriteFile(filepath.Join(base, "served", "rootx"), []byte("prefix sibling"), 0644)
-	sb.h = &webdav.Handler{FileSystem: webdav.LocalFileSystem(sb.root)}
+	// the served directory is configured in different spellings of the same directory (an operator may write any of
+	// them): clean, trailing slash, "/./", "//", through a sibling and back
+	spelled := sb.root
+	switch spelling % 5 {
+	case 1:
+		spelled = sb.root + "/"
+	case 2:
+		spelled = base + "/served/./root"
+	case 3:
+		spelled = base + "/served//root"
+	case 4:
+		spelled = base + "/served/sibling/../root"
+	}
+	sb.h = &webdav.Handler{FileSystem: webdav.LocalFileSystem(spelled)}
 	sb.canary = sb.outside()
 	return sb
 }
+
 
 func (sb *sandbox) close() { os.RemoveAll(sb.base) }
 
@@ -263,6 +277,12 @@ func (sb *sandbox) do(rq fsReq) (line string, goOut string) {
 		case 'o':
 			return internal.ETag("0ther" + curTag).String(), true
 		case 'm':
+			// not a quoted string: the bare tag, or one of the other malformed spellings (by request, deterministic)
+			alt := []string{"", "W/", "W", "\"", "W/x", "\"abc", "abc\"", "'a'", "W/\"", "\\"}
+			k := (len(rq.path)*7 + len(rq.method)*3 + len(rq.body) + int(rq.ifm) + 2*int(rq.ifnm)) % (2 * len(alt))
+			if k < len(alt) && alt[k] != "" {
+				return alt[k], true
+			}
 			if curTag == "" {
 				return "c", true
 			}
@@ -589,7 +609,7 @@ func famFsReq(o *Out, r *RNG, thorough bool) {
 		go func(ti int) {
 			defer wg.Done()
 			defer func() { <-sem }()
-			sb := newSandbox()
+			sb := newSandbox(ti)
 			defer sb.close()
 			reqs := universeRequests(thorough, ti)
 			var lines []string
@@ -617,7 +637,7 @@ func famFsReq(o *Out, r *RNG, thorough bool) {
 		}
 	}
 	// traversal forms and special names against a tree with content (C03 end to end, canaries outside)
-	sb := newSandbox()
+	sb := newSandbox(2)
 	defer sb.close()
 	tree := []fsEntry{{path: "/", dir: true}, {path: "/a", dir: true}, {path: "/a/f", content: "x"}, {path: "/root", content: "r"}}
 	sb.reset(tree)
